@@ -414,9 +414,9 @@ Definition op_hyp (st : state) (o : op) : bool :=
   | AddTrait x f =>          (* a new trait has no value yet; nodes naming it carry the trait_added graph *)
       (* re-adding an existing trait keeps its notifiers (has_traits.py add_trait l.2843-2848): nothing changes *)
       t x f || (is_nil_b (h x f) && forallb (fun r : reg => wf_dyn f (snd r)) rs)
-  | Observe _ r g => walkable t h g r
+  | Observe _ _ _ => true           (* a registration that cannot be hooked fails atomically: inside the theorems *)
   | Unobserve k r g => existsb (reg_eqb ((k, r), g)) rs
-  | ObserveAll _ r gs => forallb (fun g => walkable t h g r) gs
+  | ObserveAll _ _ _ => true
   | UnobserveAll k r gs => regs_present k r gs rs
   | SetRef x f v => edge_acyclic_b t h rs x f v
   | SetCont x f items _ =>
